@@ -229,6 +229,12 @@ def initHealth (c : Ctx) (slots : List Account.Slot) (books : Bank.Bank) : Res U
     let ps ← portfolio c slots books
     Risk.checkInitHealth ps
 
+/-- the balance in slot `i` (always there after `find_or_create`) -/
+def balAt (slots : List Account.Slot) (i : Nat) : Res Bank.Balance :=
+  match slots[i]? with
+  | some s => .ok (toBal s)
+  | none => .error .panic
+
 def writeSlot (c : Ctx) (slots : List Account.Slot) (i : Nat) (x : Bank.Balance) : List Account.Slot :=
   Account.sortBalances (slots.set i (ofBal c.b.key x))
 
@@ -245,7 +251,7 @@ def deposit (c : Ctx) (amount : Int) (upTo : Bool) : Res Out := do
   if amt = 0 then .ok { slots := c.a.slots, books := b, tokens := 0, window := c.g.window }
   else do
     let (slots, i) ← Account.findOrCreate c.a.slots c.b.key b.assetTag c.now
-    let x ← (match slots[i]? with | some s => .ok (toBal s) | none => .error .panic : Res Bank.Balance)
+    let x ← balAt slots i
     let (b', x', tok) ← Ix.depositCore c.ixEnv b (some x) amt
     .ok { slots := writeSlot c slots i (x'.getD x), books := b', tokens := tok, window := c.g.window }
 
@@ -274,7 +280,7 @@ def borrow (c : Ctx) (amount : Int) : Res Out := do
   Account.validateAssetTags c.a.slots b.assetTag
   bankState c .failsIfPausedOrReduceState
   let (slots, i) ← Account.findOrCreate c.a.slots c.b.key b.assetTag c.now
-  let x ← (match slots[i]? with | some s => .ok (toBal s) | none => .error .panic : Res Bank.Balance)
+  let x ← balAt slots i
   let (b', x', tok) ← borrowCore c.ixEnv b x amount
   let slots' := writeSlot c slots i x'
   initHealth c slots' b'
@@ -288,30 +294,63 @@ def receivershipPrice (c : Ctx) : Res Int := do
     let p ← Risk.priceOfType rb.feed .realTime (some .low) rb.r.maxConf
     if p > 0 then .ok p else .error (.err E.ZeroAssetPrice)
 
+/-- the price a withdrawal is metered at: fetched only in receivership -/
+def withdrawPrice (c : Ctx) : Res Int := if flag c ACCOUNT_IN_RECEIVERSHIP then receivershipPrice c else .ok 0
+
+/-- the booking of a withdrawal: everything, or the (pre-fee) amount asked for -/
+def withdrawCore (c : Ctx) (b : Bank.Bank) (x : Bank.Balance) (amount : Int) (all : Bool) : Res (Bank.Bank × Bank.Balance × Int) :=
+  if all then Bank.withdrawAll b x c.now
+  else do
+    let pre ← Ix.preFeeAmt c.ixEnv amount
+    let (b', x') ← Bank.decreaseBalance b x c.now (ofInt pre) .withdrawOnly
+    .ok (b', x', pre)
+
+/-- a completed deleverage pays what is left in the vault -/
+def withdrawPays (c : Ctx) (b' : Bank.Bank) (pre : Int) : Int :=
+  if hasFlag b'.flags TOKENLESS_REPAYMENTS_COMPLETE then min pre c.vaultAmount else pre
+
+/-- the deleverage withdrawal window: metered only for accounts flagged as being deleveraged -/
+def withdrawWindow (c : Ctx) (price : Int) (b' : Bank.Bank) (tokens : Int) : Res Admin.Window :=
+  if flag c ACCOUNT_IN_DELEVERAGE then do
+    let v ← Risk.calcValue (ofInt tokens) price (Bank.balanceDecimals b') none
+    Admin.updateWithdrawnEquity c.g.window v c.now
+  else .ok c.g.window
+
+/-- the initial-margin check at the end of a withdrawal is skipped in receivership (and, inside, in a flash loan) -/
+def withdrawHealth (c : Ctx) (slots : List Account.Slot) (b' : Bank.Bank) : Res Unit :=
+  if flag c ACCOUNT_IN_RECEIVERSHIP then .ok () else initHealth c slots b'
+
 /-- `lending_account_withdraw(amount, withdraw_all)` -/
 def withdraw (c : Ctx) (amount : Int) (all : Bool) : Res Out := do
   runChecks c.env (checks .LendingAccountWithdraw)
   Bank.chk (!(flag c ACCOUNT_DISABLED)) E.AccountDisabled
   bankState c .failsInPausedState
-  let recv := flag c ACCOUNT_IN_RECEIVERSHIP
-  let price ← if recv then receivershipPrice c else .ok 0
+  let price ← withdrawPrice c
   let b ← Bank.accrueInterest c.b.books c.b.ir c.now
   let (i, s) ← findSlot c
-  let (b', x', pre) ← (if all then Bank.withdrawAll b (toBal s) c.now
-    else do
-      let pre ← Ix.preFeeAmt c.ixEnv amount
-      let (b', x') ← Bank.decreaseBalance b (toBal s) c.now (ofInt pre) .withdrawOnly
-      .ok (b', x', pre) : Res (Bank.Bank × Bank.Balance × Int))
-  -- a completed deleverage pays what is left
-  let pre := if hasFlag b'.flags TOKENLESS_REPAYMENTS_COMPLETE then min pre c.vaultAmount else pre
-  -- the deleverage withdrawal window
-  let window ← (if flag c ACCOUNT_IN_DELEVERAGE then do
-      let v ← Risk.calcValue (ofInt pre) price (Bank.balanceDecimals b') none
-      Admin.updateWithdrawnEquity c.g.window v c.now
-    else .ok c.g.window : Res Admin.Window)
+  let (b', x', pre) ← withdrawCore c b (toBal s) amount all
+  let tokens := withdrawPays c b' pre
+  let window ← withdrawWindow c price b' tokens
   let slots' := writeSlot c c.a.slots i x'
-  if !recv then initHealth c slots' b' else .ok ()
-  .ok { slots := slots', books := b', tokens := pre, window }
+  withdrawHealth c slots' b'
+  .ok { slots := slots', books := b', tokens, window }
+
+/-- the booking of a repayment: the whole debt, or the amount given -/
+def repayCore (c : Ctx) (b : Bank.Bank) (x : Bank.Balance) (amount : Int) (all : Bool) : Res (Bank.Bank × Bank.Balance × Int) :=
+  if all then Bank.repayAll b x c.now
+  else do
+    let (b', x') ← Bank.increaseBalance b x c.now (ofInt amount) .repayOnly
+    .ok (b', x', amount)
+
+/-- tokens a repayment takes from the signer: none for the risk admin's token-less full repayment on a bank flagged for it -/
+def repayTokens (c : Ctx) (b' : Bank.Bank) (post : Int) (all : Bool) : Res Int :=
+  if c.signer == c.g.riskAdmin && hasFlag b'.flags TOKENLESS_REPAYMENTS_ALLOWED && all then .ok 0
+  else Ix.preFeeAmt c.ixEnv post
+
+/-- once the debts of a bank flagged for token-less repayment are discharged it is marked complete -/
+def repayFlags (b' : Bank.Bank) : Nat :=
+  if hasFlag b'.flags TOKENLESS_REPAYMENTS_ALLOWED && decide (Fx.abs b'.sl < ZERO_AMOUNT_THRESHOLD * 10)
+  then b'.flags ||| TOKENLESS_REPAYMENTS_COMPLETE.toNat else b'.flags
 
 /-- `lending_account_repay(amount, repay_all)` -/
 def repay (c : Ctx) (amount : Int) (all : Bool) : Res Out := do
@@ -320,16 +359,9 @@ def repay (c : Ctx) (amount : Int) (all : Bool) : Res Out := do
   bankState c .failsInPausedState
   let b ← Bank.accrueInterest c.b.books c.b.ir c.now
   let (i, s) ← findSlot c
-  let (b', x', post) ← (if all then Bank.repayAll b (toBal s) c.now
-    else do
-      let (b', x') ← Bank.increaseBalance b (toBal s) c.now (ofInt amount) .repayOnly
-      .ok (b', x', amount) : Res (Bank.Bank × Bank.Balance × Int))
-  -- the risk admin's token-less repayment on a bank flagged for it
-  let tokens ← (if c.signer == c.g.riskAdmin && hasFlag b'.flags TOKENLESS_REPAYMENTS_ALLOWED && all then .ok 0
-    else Ix.preFeeAmt c.ixEnv post : Res Int)
-  let flags := if hasFlag b'.flags TOKENLESS_REPAYMENTS_ALLOWED && decide (Fx.abs b'.sl < ZERO_AMOUNT_THRESHOLD * 10)
-    then b'.flags ||| TOKENLESS_REPAYMENTS_COMPLETE.toNat else b'.flags
-  .ok { slots := writeSlot c c.a.slots i x', books := { b' with flags }, tokens, window := c.g.window }
+  let (b', x', post) ← repayCore c b (toBal s) amount all
+  let tokens ← repayTokens c b' post all
+  .ok { slots := writeSlot c c.a.slots i x', books := { b' with flags := repayFlags b' }, tokens, window := c.g.window }
 
 /-- `lending_account_close_balance` -/
 def closeBalance (c : Ctx) : Res Out := do
